@@ -7,6 +7,8 @@ exactly the referenced note's tree is inserted; the Remove names the same key th
 rendered relative to the directory of the note it is stored under (= C15-R1).  Does NOT decide conservation of text nor the
 extract-then-inline round trip at the Markdown level.
 """
+import re
+
 from vlib import factbase as fb
 from vlib import q
 from . import arms as A
@@ -91,8 +93,8 @@ def rule_r1(facts, rep, rid="C09-R1"):
             ck = [y for y in fb.walk(cond) if y.get("k") == "mcall" and y["name"] == "contains_key"]
             rets = [y for y in fb.walk(iff["t"]) if y.get("k") == "ret"]
             if neg and ck and rets:
-                tested = fb.show(ck[0]["args"][0]).lstrip("&")
-                returned = fb.show(rets[0]["e"]).lstrip("&")
+                tested = fb.show_canon(rk, ck[0]["args"][0]).lstrip("&")
+                returned = fb.show_canon(rk, rets[0]["e"]).lstrip("&")
                 if tested == returned:
                     okf = True
                 else:
@@ -149,27 +151,33 @@ def rule_r1(facts, rep, rid="C09-R1"):
         rep.violation(rid, key, "Database::new is not given config.sequential_ids (defaulting to false) as its sequential flag: %s" % [fb.show(x["args"][1]) for x in db])
 
 
+def _cs(fn, e, maxdepth=80):
+    """canonical (rename-independent) rendering without blanks"""
+    return fb.show_canon(fn, e, maxdepth=maxdepth).replace(" ", "")
+
+
 def rule_r2(facts, rep, rid="C09-R2"):
     rep.rule(rid, "remove-one / insert-one: SectionExtract::extract_rec filters out exactly the child with the extracted id and inserts exactly one Reference{key: new key, "
                   "text: plain text of the extracted node} on the parent edge and maps children recursively (no filter) on the other; Tree::extract_sections replaces a node iff "
                   "its id is in the map; inline-section removes the reference node and inserts the referenced note's tree; inline-quote replaces the reference by a quote of the "
-                  "referenced note's children; the removed key is the inlined key")
-    f = facts.fn("SectionExtract::extract_rec")
+                  "referenced note's children; the removed key is the inlined key.  (Shapes are compared on a rename-independent rendering: parameters by position, closure "
+                  "parameters by nesting depth, simple `let` locals inlined.)")
+    f = facts.fn("SectionExtract::extract_rec")     # (tree = P0, extract_id = P1, parent_id = P2, new_key = P3)
     rep.saw_fn(f)
     c = ctx(f)
     iffs = [x for x in fb.walk(f.body, into_closures=False) if x.get("k") == "if"]
     key = f.def_ + "|parent-edge"
     iff = None
     for x in iffs:
-        if "id_eq(parent_id)" in fb.show(x["c"]).replace(" ", ""):
+        if _cs(f, x["c"]) == "P0.id_eq(P2)":
             iff = x
     if iff is None:
-        rep.violation(rid, key, "extract_rec has no `if tree.id_eq(parent_id)` edge", f.loc)
+        rep.violation(rid, key, "extract_rec has no `if tree.id_eq(parent_id)` edge (conditions: %s)" % [_cs(f, x["c"])[:40] for x in iffs], f.loc)
     else:
         t = iff["t"]
         filt = [x for x in fb.walk(t) if x.get("k") == "mcall" and x["name"] == "filter"]
-        okf = len(filt) == 1 and fb.show(filt[0]["args"][0]).replace(" ", "") in ("|child|!child.id_eq(extract_id)",)
-        ins = [x for x in fb.walk(t) if x.get("k") == "mcall" and x["name"] in ("insert", "push", "extend", "append") and "children" in fb.show(x["recv"])]
+        okf = len(filt) == 1 and re.match(r"^\|c\d\|!c\d\.id_eq\(P1\)$", _cs(f, filt[0]["args"][0])) is not None
+        ins = [x for x in fb.walk(t) if x.get("k") == "mcall" and x["name"] in ("insert", "push", "extend", "append") and (fb.callee(x) or "").startswith(("std::vec::Vec::", "alloc::vec::Vec::"))]
         refs = _struct_lits(t, "node::Reference")
         probs = []
         if not okf:
@@ -180,11 +188,11 @@ def rule_r2(facts, rep, rid="C09-R2"):
             probs.append("%d Reference literals" % len(refs))
         else:
             r = refs[0]
-            kp = c.vprov(_field(r, "key"))
-            tp = c.mentions(_field(r, "text"))
-            if ("param", "new_key") not in kp:
+            kc = _cs(f, _field(r, "key"))
+            tc = _cs(f, _field(r, "text"))
+            if kc not in ("P3.clone()", "P3", "(*P3).clone()"):
                 probs.append("the inserted reference's key is `%s`, not the new key" % fb.show(_field(r, "key")))
-            if not (q.has_call(tp, "Node::plain_text") and ("param", "extract_id") in tp):
+            if not ("plain_text()" in tc and "P0.find(P1)" in tc):
                 probs.append("the inserted reference's text is not the plain text of the extracted node (`%s`)" % fb.show(_field(r, "text"))[:70])
         other = [x["name"] for x in fb.walk(t) if x.get("k") == "mcall" and x["name"] in (LOSSY - {"filter", "find"})]
         if other:
@@ -193,17 +201,14 @@ def rule_r2(facts, rep, rid="C09-R2"):
             rep.violation(rid, key, "; ".join(probs) + " — the extracted section is lost, duplicated, or replaced by a wrong reference", loc(f, iff))
         else:
             rep.ok(rid, key, "children.filter(!id_eq(extract_id)) + insert(pre_sub_header_position, Reference{new_key, plain_text(extracted)})", loc(f, iff))
-        # position
         if ins:
-            pos = fb.show(ins[0]["args"][0]) if ins[0]["name"] == "insert" else ""
+            pos = _cs(f, ins[0]["args"][0]) if ins[0]["name"] == "insert" else ""
             k2 = f.def_ + "|insert-position"
-            if ins[0]["name"] == "insert" and "pre_sub_header_position" in pos:
+            if ins[0]["name"] == "insert" and pos == "P0.pre_sub_header_position()":
                 rep.ok(rid, k2, "inserted before the first sub-section", loc(f, ins[0]))
             else:
                 rep.violation(rid, k2, "the reference is inserted at `%s`, not at tree.pre_sub_header_position(): it would land under a sub-section" % pos, loc(f, ins[0]))
-    # other edge: recursive map without filter
     key = f.def_ + "|other-edge"
-    rets = [x for x in fb.walk(f.body, into_closures=False) if x.get("k") == "ret"]
     rec_ok = False
     for x in fb.walk(f.body):
         if x.get("k") == "mcall" and x["name"] == "map" and any(y.get("k") == "call" and (fb.callee(y) or "").endswith("SectionExtract::extract_rec") for y in fb.walk(x)):
@@ -213,37 +218,40 @@ def rule_r2(facts, rep, rid="C09-R2"):
             while r.get("k") == "mcall":
                 names.append(r["name"])
                 r = r["recv"]
-            if not (set(names + ups) & (LOSSY - {"flatten"})) or True:
-                bad = set(names + ups) & LOSSY
-                rec_ok = not bad
+            bad = set(names + ups) & LOSSY
+            args_ok = any(y.get("k") == "call" and (fb.callee(y) or "").endswith("SectionExtract::extract_rec") and [_cs(f, a) for a in y["args"][1:]] == ["P1", "P2", "P3"] for y in fb.walk(x))
+            rec_ok = not bad and args_ok and _cs(f, r) == "P0.children"
     if rec_ok:
-        rep.ok(rid, key, "children.iter().map(extract_rec).flatten().collect()", f.loc)
+        rep.ok(rid, key, "children.iter().map(extract_rec(child, same ids)).flatten().collect()", f.loc)
     else:
-        rep.violation(rid, key, "on the non-parent edge extract_rec does not map all children recursively without filtering", f.loc)
-    # extract_sections
+        rep.violation(rid, key, "on the non-parent edge extract_rec does not map all children recursively (same arguments) without filtering", f.loc)
+    # extract_sections   (self, keys = P1)
     g = facts.fn("Tree::extract_sections")
     rep.saw_fn(g)
-    txt = fb.show(g.body, maxdepth=40).replace(" ", "")
+    txt = _cs(g, g.body)
     key = g.def_ + "|replace-iff-in-map"
     refs = _struct_lits(g.body, "node::Reference")
-    cg_ = ctx(g)
-    okx = "filter(|id|keys.contains_key(&id))" in txt and "unwrap_or_else(||self.map_children(" in txt and len(refs) == 1
+    okx = (re.search(r"self\.id\.filter\(\|c0\|P1\.contains_key\(&c0\)\)", txt) is not None
+           and re.search(r"\.unwrap_or_else\(\|\|self\.map_children\(\|c1\|c1\.extract_sections\(P1(\.clone\(\))?\)\)\)", txt) is not None and len(refs) == 1)
     if okx:
         r = refs[0]
-        kk = fb.show(_field(r, "key"))
-        tt = fb.show(_field(r, "text"))
-        if kk == "key" and tt == "text":
-            rep.ok(rid, key, "id in map -> Reference{key, text} from the map entry; else map_children(recursive)", g.loc)
+        kk = _cs(g, _field(r, "key"))
+        tt = _cs(g, _field(r, "text"))
+        src = [x for x in fb.walk(g.body) if x.get("k") == "let" and x["pat"].get("k") == "p_tuple"]
+        src_ok = src and re.match(r"^P1\.get\(&c0\)", _cs(g, src[0]["init"])) is not None
+        if kk == "b0" and tt == "b1" and src_ok:
+            rep.ok(rid, key, "id in map -> Reference{key, text} from that id's map entry; else map_children(recursive)", g.loc)
         else:
-            rep.violation(rid, key, "the replacing reference is built from `%s` / `%s`" % (kk, tt), g.loc)
+            rep.violation(rid, key, "the replacing reference is built from `%s` / `%s` (entry lookup `%s`)" % (kk, tt, _cs(g, src[0]["init"])[:40] if src else "?"), g.loc)
     else:
         rep.violation(rid, key, "Tree::extract_sections no longer has the shape `id.filter(in map).map(Reference).unwrap_or_else(map_children(recursive))`", g.loc)
-    # SubSectionsExtract: every sub-section id gets Create + Update + map entry in the same loop iteration
+    # SubSectionsExtract
     h = facts.fn("SubSectionsExtract as iwes::router::server::action::ActionProvider>::changes")
     rep.saw_fn(h)
     ch = ctx(h)
     loops = [x for x in fb.walk(h.body) if x.get("k") == "loop"]
     key = h.def_ + "|per-section-loop"
+    map_ids = set()
     if not loops:
         rep.violation(rid, key, "no loop over the sub-sections", h.loc)
     else:
@@ -252,82 +260,103 @@ def rule_r2(facts, rep, rid="C09-R2"):
         creates = _struct_lits(l, "action::Create")
         updates = _struct_lits(l, "action::Update")
         skips = [x for x in fb.walk(l) if x.get("k") == "continue"] + [x for x in fb.walk(l) if x.get("k") == "if" and x["c"].get("k") != "letx"]
-        if "random_key" in names and "insert" in names and len(creates) == 1 and len(updates) == 1 and not skips:
+        for x in fb.walk(l):
+            if x.get("k") == "mcall" and x["name"] == "insert" and (fb.callee(x) or "").endswith("HashMap::insert"):
+                b = _base(x["recv"])
+                if b:
+                    map_ids.add(b[0])
+        if "random_key" in names and map_ids and len(creates) == 1 and len(updates) == 1 and not skips:
             rep.ok(rid, key, "each sub-section: random_key, map entry, Create, Update — unconditionally", loc(h, l))
         else:
             rep.violation(rid, key, "the per-sub-section loop no longer creates one note, one map entry and one update for every sub-section unconditionally "
                           "(creates=%d updates=%d conditions=%d)" % (len(creates), len(updates), len(skips)), loc(h, l))
-    sel = [x for x in fb.walk(h.body) if x.get("k") == "let" and any(n == "sub_sections" for n, _ in fb.pat_bindings(x["pat"]))]
+    # what the loop iterates over
     key = h.def_ + "|selects-all-section-children"
-    if sel:
-        t = fb.show(sel[0]["init"]).replace(" ", "")
-        if "filter(|child|child.is_section())" in t and not any(m in t for m in (".skip(", ".take(", ".rev(", ".step_by(")):
-            rep.ok(rid, key, "children.filter(is_section).map(id)", loc(h, sel[0]))
+    fors = [x for x in fb.walk(h.body) if x.get("k") == "match" and x.get("src") == "ForLoopDesugar"]
+    if fors:
+        t = _cs(h, fors[0]["e"])
+        if re.search(r"\.children\.iter\(\)\.filter\(\|c\d\|c\d\.is_section\(\)\)\.map\(\|c\d\|c\d\.id\.unwrap\(\)\)", t) and not any(m in t for m in (".skip(", ".take(", ".rev(", ".step_by(")):
+            rep.ok(rid, key, "children.filter(is_section).map(id)", loc(h, fors[0]))
         else:
-            rep.violation(rid, key, "sub-sections are selected by `%s`" % t[:100], loc(h, sel[0]))
-    # the source note's update uses the same `extracted` map
+            rep.violation(rid, key, "sub-sections are selected by `%s`" % t[:120], loc(h, fors[0]))
+    else:
+        rep.violation(rid, key, "no for-loop over the sub-sections", h.loc)
     key = h.def_ + "|source-update-uses-map"
     es = [x for x in fb.walk(h.body) if x.get("k") == "mcall" and x["name"] == "extract_sections"]
-    if es and "extracted" in fb.show(es[0]["args"][0]) and es[0]["recv"].get("k") == "mcall" and es[0]["recv"]["name"] == "collect":
-        rep.ok(rid, key, "collect(key).extract_sections(extracted)", loc(h, es[0]))
+    okm = False
+    if es:
+        b = _base(es[0]["args"][0])
+        okm = b is not None and b[0] in map_ids and es[0]["recv"].get("k") == "mcall" and es[0]["recv"]["name"] == "collect"
+    if okm:
+        rep.ok(rid, key, "collect(key).extract_sections(<the map filled in the loop>)", loc(h, es[0]))
     else:
-        rep.violation(rid, key, "the source note is not rewritten with collect(key).extract_sections(extracted)", h.loc)
+        rep.violation(rid, key, "the source note is not rewritten with collect(key).extract_sections(<the map filled in the loop>)", h.loc)
 
-    # inline section / quote
+    # inline section / quote     (self, target_id = P1, context = P2)
     for nm, shape in (("ReferenceInlineSection", "section"), ("ReferenceInlineQuote", "quote")):
         f = facts.fn("%s as iwes::router::server::action::ActionProvider>::changes" % nm)
         rep.saw_fn(f)
         c = ctx(f)
         rem = _struct_lits(f.body, "action::Remove")
-        inl = [x for x in fb.walk(f.body) if x.get("k") == "let" and any(n == "inline_key" for n, _ in fb.pat_bindings(x["pat"]))]
+        # the inlined key = argument of the `collect` whose tree is inserted
         key = f.def_ + "|removed-key-is-inlined-key"
-        if len(rem) == 1 and inl:
-            a = fb.show(_field(rem[0], "key")).replace(" ", "")
-            b = fb.show(inl[0]["init"]).replace(" ", "")
-            if a == b or a in ("inline_key", "inline_key.clone()"):
-                rep.ok(rid, key, "Remove{key} and the inlined content use the same reference_key(target)", loc(f, rem[0]))
-            else:
-                rep.violation(rid, key, "the deleted note (`%s`) is not the note whose content was inlined (`%s`): content is deleted without being inlined" % (a[:60], b[:60]), loc(f, rem[0]))
-        else:
-            rep.violation(rid, key, "expected exactly one Remove and an `inline_key` binding (found %d removes)" % len(rem), f.loc)
-        key = f.def_ + "|surgery"
-        txt = fb.show(f.body, maxdepth=60).replace(" ", "")
+        inl_c = None
         if shape == "section":
             aph = [x for x in fb.walk(f.body) if x.get("k") == "mcall" and x["name"] == "append_pre_header"]
-            ok1 = False
-            for x in aph:
-                r = x["recv"]
-                a1 = fb.show(x["args"][1], maxdepth=6).replace(" ", "") if len(x["args"]) > 1 else ""
-                if (r.get("k") == "mcall" and r["name"] == "remove_node" and fb.show(r["args"][0]) == "target_id" and r["recv"].get("k") == "mcall" and r["recv"]["name"] == "collect"
-                        and fb.show(x["args"][0]) == "section_id" and a1 == "context.collect(&inline_key)"):
-                    ok1 = True
-            if ok1:
-                rep.ok(rid, key, "collect(key).remove_node(target).append_pre_header(section, collect(inline_key))", f.loc)
-            else:
-                rep.violation(rid, key, "inline-section is no longer remove_node(target) followed by append_pre_header(section, collect(inline_key))", f.loc)
+            if aph and len(aph[0]["args"]) > 1:
+                m_ = re.match(r"^P2\.collect\(&(.*)\)$", _cs(f, aph[0]["args"][1]))
+                inl_c = m_.group(1) if m_ else None
         else:
-            qs = [s for s in _struct_lits(f.body, "tree::Tree")]
+            for s_ in _struct_lits(f.body, "tree::Tree"):
+                if "Quote" in fb.show(_field(s_, "node")):
+                    m_ = re.match(r"^P2\.collect\(&(.*)\)\.children(\.clone\(\))?$", _cs(f, _field(s_, "children")))
+                    inl_c = m_.group(1) if m_ else None
+        if len(rem) == 1 and inl_c:
+            a = _cs(f, _field(rem[0], "key"))
+            a = a[:-8] if a.endswith(".clone()") else a
+            if a == inl_c and "reference_key(c0)" in a:
+                rep.ok(rid, key, "Remove{key} and the inlined content use the same reference_key(target)", loc(f, rem[0]))
+            else:
+                rep.violation(rid, key, "the deleted note (`%s`) is not the note whose content was inlined (`%s`): content is deleted without being inlined" % (a[:70], inl_c[:70]), loc(f, rem[0]))
+        else:
+            rep.violation(rid, key, "expected exactly one Remove and an inlined collect(<reference key>) (found %d removes, inlined key %s)" % (len(rem), inl_c), f.loc)
+        key = f.def_ + "|surgery"
+        if shape == "section":
+            ok1 = False
+            for x in [y for y in fb.walk(f.body) if y.get("k") == "mcall" and y["name"] == "append_pre_header"]:
+                r = x["recv"]
+                if (r.get("k") == "mcall" and r["name"] == "remove_node" and _cs(f, r["args"][0]) == "c0" and r["recv"].get("k") == "mcall" and r["recv"]["name"] == "collect"
+                        and _cs(f, r["recv"]["args"][0]) == "&P2.key_of(P1)" and _cs(f, x["args"][0]) == "c1"):
+                    sel = [p_ for p_ in c.parents(x) if p_.get("k") == "mcall" and p_["name"] == "map"]
+                    if sel and sel[0]["recv"].get("k") == "mcall" and sel[0]["recv"]["name"] == "get_surrounding_section_id" and _cs(f, sel[0]["recv"]["args"][0]) == "c0":
+                        ok1 = True
+            if ok1:
+                rep.ok(rid, key, "collect(key).remove_node(target).append_pre_header(<surrounding section of target>, collect(inline_key))", f.loc)
+            else:
+                rep.violation(rid, key, "inline-section is no longer collect(key).remove_node(target) followed by append_pre_header(<section surrounding the target>, collect(inline_key))", f.loc)
+        else:
             okq = False
-            for s in qs:
-                nd = fb.show(_field(s, "node"))
-                chn = fb.show(_field(s, "children")).replace(" ", "")
-                if "Quote" in nd and "collect(&inline_key).children" in chn:
+            qc = None
+            for s_ in _struct_lits(f.body, "tree::Tree"):
+                if "Quote" in fb.show(_field(s_, "node")) and re.match(r"^P2\.collect\(&.*\)\.children(\.clone\(\))?$", _cs(f, _field(s_, "children"))):
                     okq = True
-            ok2 = any(x.get("k") == "mcall" and x["name"] == "replace" and (fb.callee(x) or "").endswith("Tree::replace") and fb.show(x["args"][0]) == "reference_id"
-                      and fb.show(x["args"][1]).replace(" ", "") == "&quote" for x in fb.walk(f.body))
+                    qc = _cs(f, s_)
+            ok2 = any(x.get("k") == "mcall" and x["name"] == "replace" and (fb.callee(x) or "").endswith("Tree::replace") and _cs(f, x["args"][0]) == "c0"
+                      and _cs(f, x["args"][1]) == "&" + (qc or "?") and x["recv"].get("k") == "mcall" and x["recv"]["name"] == "collect" and _cs(f, x["recv"]["args"][0]) == "&P2.key_of(P1)"
+                      for x in fb.walk(f.body))
             if okq and ok2:
                 rep.ok(rid, key, "collect(key).replace(reference, Quote{children: collect(inline_key).children})", f.loc)
             else:
-                rep.violation(rid, key, "inline-quote is no longer replace(reference, Quote{children of the referenced note})", f.loc)
+                rep.violation(rid, key, "inline-quote is no longer collect(key).replace(reference, Quote{children of the referenced note})", f.loc)
     # Tree primitives used by the surgery
     rn = facts.fn("Tree::remove_node")
     rep.saw_fn(rn)
-    t = fb.show(rn.body, maxdepth=40).replace(" ", "")
+    t = _cs(rn, rn.body)
     key = rn.def_ + "|filters-only-target"
-    if "filter(|child|!child.id_eq(target_id))" in t and ".map(|child|child.remove_node(target_id))" in t:
+    if re.search(r"\.filter\(\|c0\|!c0\.id_eq\(P1\)\)", t) and re.search(r"\.map\(\|c0\|c0\.remove_node\(P1\)\)", t) and t.count(".filter(") == 1:
         rep.ok(rid, key, "children.filter(!id_eq(target)).map(recursive)", rn.loc)
     else:
-        rep.violation(rid, key, "Tree::remove_node does not remove exactly the node with the target id", rn.loc)
+        rep.violation(rid, key, "Tree::remove_node does not remove exactly the node with the target id (it must filter `!child.id_eq(target)` and recurse into every remaining child)", rn.loc)
     ap = facts.fn("Tree::append_pre_header")
     rep.saw_fn(ap)
     ins = [x for x in fb.walk(ap.body) if x.get("k") == "mcall" and x["name"] == "insert"]
@@ -336,7 +365,7 @@ def rule_r2(facts, rep, rid="C09-R2"):
     okp = False
     if len(ins) == 1:
         guards = [p for p in c.parents(ins[0]) if p.get("k") == "if"]
-        if guards and "id_eq(target_id)" in fb.show(guards[0]["c"]).replace(" ", "") and "pre_sub_header_position" in fb.show(ins[0]["args"][0]):
+        if guards and _cs(ap, guards[0]["c"]) == "self.id_eq(P1)" and _cs(ap, ins[0]["args"][0]) == "self.pre_sub_header_position()":
             okp = True
     if okp:
         rep.ok(rid, key, "if id_eq(target) { children.insert(pre_sub_header_position(), new) }", ap.loc)
@@ -344,9 +373,9 @@ def rule_r2(facts, rep, rid="C09-R2"):
         rep.violation(rid, key, "Tree::append_pre_header does not insert exactly once, under id_eq(target), before the first sub-section", ap.loc)
     rp = facts.fn("Tree::replace")
     rep.saw_fn(rp)
-    t = fb.show(rp.body, maxdepth=30).replace(" ", "")
+    t = _cs(rp, rp.body)
     key = rp.def_ + "|replaces-only-target"
-    if t.startswith("{ifself.id_eq(node_id){tree.clone()}else{self.map_children(|child|child.replace(node_id,tree))}"):
+    if re.match(r"^\{ifself\.id_eq\(P1\)\{P2\.clone\(\)\}else\{self\.map_children\(\|c0\|c0\.replace\(P1,P2\)\)\}\}$", t):
         rep.ok(rid, key, "if id_eq(target) { new } else { map_children(recursive) }", rp.loc)
     else:
         rep.violation(rid, key, "Tree::replace is no longer `if id_eq(target) {new} else {map_children(recursive)}`", rp.loc)
